@@ -32,9 +32,11 @@ table() {
 build() { # $1 = simulator package
   prep_quic || return 2
   gen_gomod || return 2
-  mkdir -p "$BUILD/bin"
-  ( cd harness && $GO build -o "$BUILD/bin/vcheck" ./cmd/vcheck ) || return 2
-  ( cd harness && $GO test -c -tags verif -o "$BUILD/bin/$1.test" "./$1/" ) 2> "$BUILD/build-$1.log" || { grep -v 'GNU-stack\|deprecated' "$BUILD/build-$1.log" | tail -40; return 2; }
+  mkdir -p "$BIN"
+  # built under a private name and renamed: a check that is running keeps its binary
+  ( cd harness && $GO build -modfile="$MODF" -o "$BIN/vcheck.$$" ./cmd/vcheck && mv -f "$BIN/vcheck.$$" "$BIN/vcheck" ) || return 2
+  ( cd harness && $GO test -modfile="$MODF" -c -tags verif -o "$BIN/$1.test.$$" "./$1/" && mv -f "$BIN/$1.test.$$" "$BIN/$1.test" ) 2> "$BIN/build-$1.$$.log" || { grep -v 'GNU-stack\|deprecated' "$BIN/build-$1.$$.log" | tail -40; rm -f "$BIN/build-$1.$$.log"; return 2; }
+  rm -f "$BIN/build-$1.$$.log"
   return 0
 }
 
@@ -45,13 +47,13 @@ case "$cmd" in
     prop=$(python3 -c "import json,sys;print(json.load(open(sys.argv[1]))['property'])" "$f") || exit 2
     set -- $(table "$prop") || { echo "INFRA-ERROR unknown property $prop"; exit 2; }
     build "$1" || { echo "INFRA-ERROR build failed"; exit 2; }
-    exec "$BUILD/bin/vcheck" -mode replay -prop "$prop" -bin "$BUILD/bin/$1.test" -replay "$f" -verif "$VERIF_DIR"
+    exec "$BIN/vcheck" -mode replay -prop "$prop" -bin "$BIN/$1.test" -replay "$f" -verif "$VERIF_DIR" -out "$OUT"
     ;;
   detcheck)
     prop=$2
     set -- $(table "$prop") "${3:-40}" || { echo "INFRA-ERROR unknown property $prop"; exit 2; }
     build "$1" || { echo "INFRA-ERROR build failed"; exit 2; }
-    exec "$BUILD/bin/vcheck" -mode det -prop "$prop" -bin "$BUILD/bin/$1.test" -runs "$7" -verif "$VERIF_DIR"
+    exec "$BIN/vcheck" -mode det -prop "$prop" -bin "$BIN/$1.test" -runs "$7" -verif "$VERIF_DIR" -out "$OUT"
     ;;
   C*)
     prop=$1; tier=${2:-${VERIF_TIER:-quick}}
@@ -60,7 +62,7 @@ case "$cmd" in
     build "$1" || { echo "INFRA-ERROR build failed"; exit 2; }
     if [ "$tier" = thorough ]; then runs=$5; budget=$6; else runs=$3; budget=$4; fi
     runs=${VERIF_RUNS:-$runs}; budget=${VERIF_BUDGET_S:-$budget}
-    exec "$BUILD/bin/vcheck" -prop "$prop" -tier "$tier" -bin "$BUILD/bin/$1.test" -runs "$runs" -budget "$budget" -level "$2" -workers "${VERIF_WORKERS:-16}" -verif "$VERIF_DIR"
+    exec "$BIN/vcheck" -prop "$prop" -tier "$tier" -bin "$BIN/$1.test" -runs "$runs" -budget "$budget" -level "$2" -workers "${VERIF_WORKERS:-16}" -verif "$VERIF_DIR" -out "$OUT"
     ;;
   *) echo "usage: $0 <Cxx> quick|thorough | replay <file> | detcheck <Cxx>"; exit 2;;
 esac
